@@ -528,11 +528,15 @@ class CooperativeTask:
         try:
             result = next(self._iterator)
         except StopIteration:
-            self._completeWith(TaskDone(), self._iterator)
+            # The iterator may have stopped this task (or its cooperator)
+            # itself before finishing; a task completes only once.
+            if self._completionState is None:
+                self._completeWith(TaskDone(), self._iterator)
         except BaseException:
-            self._completeWith(TaskFailed(), Failure())
+            if self._completionState is None:
+                self._completeWith(TaskFailed(), Failure())
         else:
-            if isinstance(result, Deferred):
+            if isinstance(result, Deferred) and self._completionState is None:
                 self.pause()
 
                 def failLater(failure: Failure) -> None:
@@ -715,8 +719,12 @@ class Cooperator:
         """
         self._stopped = True
         # Iterate over a copy: _completeWith removes each task from self._tasks.
+        # A whenDone() callback fired from here may pause, stop or complete
+        # other tasks (or stop this cooperator again): only complete the tasks
+        # which are still running when their turn comes.
         for taskObj in list(self._tasks):
-            taskObj._completeWith(SchedulerStopped(), Failure(SchedulerStopped()))
+            if taskObj._completionState is None and not taskObj._pauseCount:
+                taskObj._completeWith(SchedulerStopped(), Failure(SchedulerStopped()))
         self._tasks = []
         if self._delayedCall is not None:
             self._delayedCall.cancel()
